@@ -157,6 +157,11 @@ pub(crate) struct IceTransportInner {
     local_parameters: parking_lot::Mutex<IceParameters>,
     remote_parameters: parking_lot::Mutex<Option<IceParameters>>,
     pending_transactions: parking_lot::Mutex<HashMap<[u8; 12], oneshot::Sender<StunDecoded>>>,
+    /// Peers of TCP streams on which a Binding request passed the credential check
+    /// of `handle_stun_request`. Passive-TCP nomination without USE-CANDIDATE
+    /// (`nudge_passive_tcp_nomination`) only considers these: an inbound stream is
+    /// attached as soon as its first frame names our ufrag, which proves nothing.
+    authenticated_tcp_peers: parking_lot::Mutex<std::collections::HashSet<SocketAddr>>,
     data_receiver: parking_lot::Mutex<Option<Arc<dyn PacketReceiver>>>,
     /// Ring buffer for packets when no receiver is registered yet.
     /// Uses VecDeque for efficient pop_front removal.
@@ -952,6 +957,7 @@ impl IceTransport {
             local_parameters: parking_lot::Mutex::new(IceParameters::generate()),
             remote_parameters: parking_lot::Mutex::new(None),
             pending_transactions: parking_lot::Mutex::new(HashMap::new()),
+            authenticated_tcp_peers: parking_lot::Mutex::new(std::collections::HashSet::new()),
             data_receiver: parking_lot::Mutex::new(None),
             buffered_packets: parking_lot::Mutex::new(VecDeque::new()),
             selected_socket: selected_socket_tx,
@@ -1046,7 +1052,9 @@ impl IceTransport {
                     .cloned()
                     .collect();
                 for wrapper in streams {
-                    if let IceSocketWrapper::TcpStream(_, _, peer) = wrapper {
+                    if let IceSocketWrapper::TcpStream(_, _, peer) = wrapper
+                        && inner.authenticated_tcp_peers.lock().contains(&peer)
+                    {
                         complete_controlled_inbound_tcp_nomination(&wrapper, peer, inner).await;
                         return;
                     }
@@ -2437,6 +2445,10 @@ async fn handle_stun_request(
             );
             return;
         }
+    }
+
+    if let IceSocketWrapper::TcpStream(_, _, peer) = sender {
+        inner.authenticated_tcp_peers.lock().insert(*peer);
     }
 
     // Check if we know this candidate
